@@ -98,6 +98,7 @@ func c07Check(c *Ctx, m map[string]interface{}, path string, pol int, choices []
 		viol("Map.ValuesForPath", "error-on-wellformed-path", err.Error())
 		return false
 	}
+	c.RetainVal("Map.ValuesForPath", got, cas)
 	gotD := dumpSeq(got)
 	match := func(e []string) bool {
 		if wild {
@@ -165,7 +166,7 @@ func c07Check(c *Ctx, m map[string]interface{}, path string, pol int, choices []
 
 func c07Run(c *Ctx) {
 	mustBeDefault(c)
-	c.S.Rule = "cases = (Map, path): Maps are all map templates with <= N nodes over keys {a,ab,k} (one key is a prefix of another) (lists <= 3 members, maps <= 3 keys, empty containers, list-in-list for non-indexed paths) with unique leaves, plus a wide family (40-key map, 40-member list); paths are step sequences of length <= L over {a,ab,k,z,*,a[0..2],ab[0..2],k[0..2]} enumerated per Map by depth-first extension (a prefix denoting nothing is extended by one more step, then abandoned); each case is run under ascending and descending map-iteration order and, for wildcard paths, under every single deviation from the sorted order (E-choice bound 1; bound 2 in thorough on the smaller Maps). non-trivial = the reference says the path denotes at least one value."
+	c.S.Rule = "cases = (Map, path): Maps are all map templates with <= N nodes over keys {a,ab,k} (one key is a prefix of another) (lists <= 3 members, maps <= 3 keys, empty containers, list-in-list for non-indexed paths) with unique leaves, plus a wide family (40-key map, 40-member list) and a deep family (four levels a.k.a.k, each a map / one-member list / two-member list of maps, 81 shapes plus heterogeneous variants, every four-step path over {key,key[0],key[1],*}); paths are step sequences of length <= L over {a,ab,k,z,*,a[0..2],ab[0..2],k[0..2]} enumerated per Map by depth-first extension (a prefix denoting nothing is extended by one more step, then abandoned); each case is run under ascending and descending map-iteration order and, for wildcard paths, under every single deviation from the sorted order (E-choice bound 1; bound 2 in thorough on the smaller Maps). Results are retained (last 16) and re-checked slot by slot after every later call. non-trivial = the reference says the path denotes at least one value."
 	c.S.Assumptions = []string{"reference path semantics written from the documentation (harness/ref_path.go)", "list directly inside a list under a plain key: one-level and recursive readings both accepted"}
 	maxNodes, maxLen, echoiceNodes := 5, 3, 5
 	if c.Thorough {
@@ -289,6 +290,61 @@ func c07Run(c *Ctx) {
 			continue
 		}
 		runCase(wide(), 999, p)
+	}
+
+	// deep family: four levels a.k.a.k, each level a map, a one-member list or a two-member list of maps
+	// (uniform per level, plus a variant whose second members carry a one-member list below), a sibling key
+	// "ab" at every level; every path of four steps over {key, key[0], key[1], *} - several plain-to-indexed
+	// transitions with several parents at each
+	lvKeys := []string{"a", "k", "a", "k"}
+	var wrap func(lv int, kinds []int, hetero bool, leaf func() interface{}, second bool) interface{}
+	wrap = func(lv int, kinds []int, hetero bool, leaf func() interface{}, second bool) interface{} {
+		if lv == 4 {
+			return leaf()
+		}
+		kind := kinds[lv]
+		if hetero && second && kind == 2 {
+			kind = 1
+		}
+		below := func(sec bool) interface{} {
+			if lv == 3 {
+				return leaf()
+			}
+			return map[string]interface{}{lvKeys[lv+1]: wrap(lv+1, kinds, hetero, leaf, sec), "ab": leaf()}
+		}
+		switch kind {
+		case 0:
+			return below(second)
+		case 1:
+			return []interface{}{below(second)}
+		default:
+			return []interface{}{below(false), below(true)}
+		}
+	}
+	var deepPaths []string
+	for _, s0 := range []string{"a", "a[0]", "a[1]", "*"} {
+		for _, s1 := range []string{"k", "k[0]", "k[1]", "*"} {
+			for _, s2 := range []string{"a", "a[0]", "a[1]", "*"} {
+				for _, s3 := range []string{"k", "k[0]", "k[1]", "*"} {
+					deepPaths = append(deepPaths, s0+"."+s1+"."+s2+"."+s3)
+				}
+			}
+		}
+	}
+	for shp := 0; shp < 81; shp++ {
+		kinds := []int{shp % 3, shp / 3 % 3, shp / 9 % 3, shp / 27 % 3}
+		for _, hetero := range []bool{false, true} {
+			if hetero && kinds[0] != 2 && kinds[1] != 2 && kinds[2] != 2 {
+				continue
+			}
+			for _, p := range deepPaths {
+				if !c.Mine() {
+					continue
+				}
+				m := map[string]interface{}{"a": wrap(0, kinds, hetero, strLeaves(), false), "ab": "x"}
+				runCase(m, 999, p)
+			}
+		}
 	}
 }
 
